@@ -22,7 +22,7 @@ ARR_ELEMS = ["u8", "u16", "u32", "u64", "i8", "i16", "i32", "i64", "f32", "f64",
 MAPS = [("str", "u32"), ("str", "f32"), ("str", "str"), ("u32", "str"), ("u8", "u8"), ("i32", "u64"),
         ("u64", "f64"), ("str", "arr:u32"), ("str", "map:str:f32")]
 F32_SPECIAL = [0x00000000, 0x80000000, 0x00000001, 0x807fffff, 0x00800000, 0x3f800000, 0xbf800000, 0x7f7fffff,
-               0x7f800000, 0xff800000, 0x7fc00000, 0x7fc00001, 0x7f800001, 0xffc12345, 0xffffffff, 0x7fffffff]
+               0x7f800000, 0xff800000, 0x7fc00000, 0x7fc00001, 0x7fc12345, 0x7f800001, 0xffc12345, 0xffffffff, 0x7fffffff, 0x007fffff]
 F64_SPECIAL = [0x0, 0x8000000000000000, 0x1, 0x800fffffffffffff, 0x0010000000000000, 0x3ff0000000000000,
                0x7fefffffffffffff, 0x7ff0000000000000, 0xfff0000000000000, 0x7ff8000000000000, 0x7ff8000000000001,
                0x7ff0000000000001, 0xfff8123456789abc, 0xffffffffffffffff]
@@ -151,6 +151,15 @@ def msgpack_lines(rng, quick):
         add("ext", [str(rng.randint(-128, 127)), hexb(rand_bytes(rng, n))])
     for t in (-128, -1, 0, 1, 127):
         add("ext", [str(t), hexb(rand_bytes(rng, 3))])
+    # embedded NUL and other non-printable bytes: the length is size(), not strlen()
+    nul = [b"\x00", b"a\x00", b"\x00a", b"a\x00b", b"\x00\x00\x00", b"ab\x00" + b"c" * 40, b"\x00" * 32, b"\x01\x02\x7f\x80\xff\x1b"]
+    for b in nul:
+        add("str", [hexb(b)])
+    add("arr:str", [str(len(nul))] + [hexb(b) for b in nul])
+    ks = sorted(hexb(b) for b in nul)
+    add("map:str:u32", [str(len(ks))] + [w for i, k in enumerate(ks) for w in (k, str(i))])
+    add("map:str:str", [str(len(ks))] + [w for k in ks for w in (k, k)])
+    add("map:u32:str", [str(len(nul))] + [w for i, b in enumerate(nul) for w in (str(i), hexb(b))])
     # arrays: each element type at the small boundaries; the 16-bit/32-bit boundary for a few cheap element types
     for et in ARR_ELEMS:
         for n in [0, 1, 15, 16, 17] + ([] if quick else [2, 14, 31, 32, 255, 256]):
@@ -290,6 +299,7 @@ def rand_words(rng, n):
 SHAPES = [[], [1], [3], [2, 3], [1, 2], [2, 1, 3], [1, 1, 1, 1, 1, 1, 1, 2], [2, 1, 1, 1, 1, 1, 1, 2], [2, 2, 2, 2, 2, 2, 2, 2],
           [63], [64], [5, 13]]
 NAMES = [b"", b"m", b"MomentumSGD.m", b"Adam.m1", b"Adam.m2", b"a.b", b".", b" ", b"\x00", b"\xff\xfe", b"n\x00ul", "é世".encode(),
+         b"\x00\x00", b"a\x00", b"\x00b", b"hist\x00ogram\x00", b"\x01\x7f\x1b\t\n\r",
          b"x" * 31, b"y" * 32, b"z" * 255, b"w" * 256]
 
 
@@ -307,7 +317,7 @@ def rand_param(rng, shapes=None, max_stats=3, invalid_p=0.0):
     stats = {}
     for _ in range(n):
         stats[rng.choice(NAMES) if rng.random() < 0.8 else rand_bytes(rng, rng.randint(0, 40))] = rand_tensor(rng, True, shapes)
-    return P(True, rng.choice("ne"), v, rand_words(rng, len(v.words)), stats)
+    return P(True, rng.choice("nem"), v, rand_words(rng, len(v.words)), stats)
 
 
 def path_tok(path):
@@ -324,7 +334,7 @@ def rand_paths(rng, n):
         base = rng.choice(paths)[:-1] if paths and rng.random() < 0.5 else []
         p = list(base[:depth - 1])
         while len(p) < depth:
-            p.append(rng.choice(NAMES[:12]) if rng.random() < 0.85 else rand_bytes(rng, rng.randint(0, 6)))
+            p.append(rng.choice(NAMES[:17]) if rng.random() < 0.85 else rand_bytes(rng, rng.randint(0, 6)))
         p = tuple(p)
         if any(q[:len(p)] == p or p[:len(q)] == q for q in paths):
             continue
@@ -350,6 +360,41 @@ class O:
 
     def tok(self):
         return ":".join([self.kind, str(self.epoch)] + ["%08x" % w for w in self.words])
+
+
+def f32w(x):
+    return struct.unpack("<I", struct.pack("<f", x))[0]
+
+
+OPT_DEFAULTS = {"SGD": [0.1], "MomentumSGD": [0.01, 0.9], "AdaGrad": [0.001, 1e-8], "RMSProp": [0.01, 0.9, 1e-8],
+                "AdaDelta": [0.95, 1e-6], "Adam": [0.001, 0.9, 0.999, 1e-8]}
+
+
+def fresh_opt(kind):
+    """a default-constructed optimizer: epoch 0, lr_scale 1, l2 0, clip 0, default hyper-parameters"""
+    return O(kind, 0, [f32w(1.0), 0, 0] + [f32w(x) for x in OPT_DEFAULTS[kind]])
+
+
+OPT_SPECIAL = [0x00000000, 0x80000000, 0x7fc00000, 0x7fc12345, 0x7f800000, 0xff800000, 0x00000001, 0x007fffff, 0x7f7fffff, 0xffc00001]
+
+
+def special_opts(quick, rng):
+    """every setting of every algorithm equal to one special value; epoch 0 and 0xffffffff"""
+    out = []
+    for kind in sorted(OPT_ARITY):
+        n = 3 + OPT_ARITY[kind]
+        for i, w in enumerate(OPT_SPECIAL):
+            out.append(O(kind, [0, 0xffffffff, 1][i % 3], [w] * n))
+        # one field special at a time, the others ordinary
+        for j in range(n):
+            ws = list(fresh_opt(kind).words)
+            ws[j] = 0 if not quick else rng.choice([0, 0, 0x80000000, 0x7fc12345])
+            out.append(O(kind, 0xffffffff if j % 2 else 0, ws))
+            if not quick:
+                for w in OPT_SPECIAL[1:]:
+                    ws2 = list(fresh_opt(kind).words); ws2[j] = w
+                    out.append(O(kind, rng.choice([0, 0xffffffff]), ws2))
+    return out
 
 
 def rand_opt(rng, kind=None):
@@ -508,6 +553,19 @@ def run(chk):
     for kind in sorted(OPT_ARITY):
         for _ in range(2 if quick else 20):
             objs.append(("opt", rand_opt(rng, kind)))
+    for o in special_opts(quick, rng):
+        objs.append(("opt", o))
+    # statistics with a minibatch (`add_stats("hist", Shape({2}, 3))`): payload is batch x volume floats
+    for (sd, sb) in [([2], 3), ([], 2), ([2, 2], 2), ([3], 4)] + ([] if quick else [([2, 1, 3], 5), ([64], 2), ([], 255)]):
+        v = rand_tensor(rng, False, SHAPES[:6])
+        objs.append(("param", P(True, rng.choice("nem"), v, rand_words(rng, len(v.words)),
+                               {b"hist": T(sd, sb, rand_words(rng, vol(sd) * sb)), rng.choice(NAMES): rand_tensor(rng, True, SHAPES[:6])})))
+    # names with embedded NUL / non-printable bytes in statistics and model paths
+    v = rand_tensor(rng, False, SHAPES[:6])
+    objs.append(("param", P(True, "n", v, rand_words(rng, len(v.words)),
+                           {n: rand_tensor(rng, True, SHAPES[:4]) for n in (b"\x00", b"a\x00", b"\x00b", b"a\x00b", b"\x00\x00")})))
+    objs.append(("model", [(p, rand_param(rng, SHAPES[:4], 1)) for p in
+                           [(b"a\x00",), (b"a",), (b"\x00", b"\x00\x00"), (b"\x00", b"w"), (b"x\x00y", b"", b"\x01")]]))
 
     def save_line(kind, o, ws):
         if kind == "param":
@@ -540,9 +598,15 @@ def run(chk):
             if not src:
                 continue
             for wl_ in (0, 1):
-                dev = rng.choice("ne")
+                dev = rng.choice("nem")
                 if kind == "param":
-                    tgt = rand_param(rng, SHAPES[:9], invalid_p=0.4)
+                    tgt = rand_param(rng, SHAPES[:9], invalid_p=0.3)
+                    r = rng.random()
+                    if tgt.valid and o.stats and r < 0.5:
+                        # the target already holds statistics of the same names (as after optimizer.add / add_stats)
+                        for n in list(o.stats)[: rng.choice([1, len(o.stats)])]:
+                            tgt.stats[n] = T(tgt.value.dims, 1, [0] * len(tgt.value.words)) if r < 0.25 else rand_tensor(rng, True, SHAPES[:6])
+                        tgt.stats.setdefault(b"Adam.m1", T(tgt.value.dims, 1, [0] * len(tgt.value.words)))
                     l = "load param %d %s %s %s" % (wl_, dev, src, tgt.tok())
                     exp = "ok " + o.loaded(dev, bool(ws and wl_)).tok()
                 elif kind == "model":
@@ -552,9 +616,8 @@ def run(chk):
                     l = "load model %d %s %s %s" % (wl_, dev, src, model_tok(tgt))
                     exp = ("ok " + " ".join(byp[p].loaded(dev, bool(ws and wl_)).tok() for p, _ in tgt)).rstrip() if tgt else "ok "
                 else:
-                    if wl_:
-                        continue
-                    tgt = rand_opt(rng, o.kind)
+                    # wl_ = 0: into a FRESH (default-constructed) optimizer; 1: into one with other settings
+                    tgt = rand_opt(rng, o.kind) if wl_ else fresh_opt(o.kind)
                     l = "load opt %s %s" % (src, tgt.tok())
                     exp = "ok " + o.tok()
                 if len(loads) < (2500 if quick else 10**9) or kind != "param":
